@@ -25,6 +25,7 @@ fe_read_frame_*, bypassing fe_process.
 """
 import json
 import vlib
+from props import c06swap
 
 FINDING_KEY = "stream ends with a full frame in the overflow buffer"
 
@@ -671,7 +672,15 @@ def check(c):
                   "clang ASan/UBSan as observer of reads outside the buffer handed to a call",
                   "parametricity: the model is polymorphic in the sample type, the theorems are stated for index samples",
                   "tools/gen_fewidths.py (clang-14 JSON AST -> Generated/FeWidths.lean; role classification sample/byte/count)"]
-    c.assumptions += ["dither is off (it is random by design)", "input_endian matches the host (no byte swapping)",
+    c.assumptions += ["chunk independence is claimed with dither off only: with dither on the number of random draws per "
+                      "frame differs between fe_read_frame_* (whole window: first frame of a call, read_overflow_frame, "
+                      "fe_end) and fe_shift_frame_* (frame_shift new samples), so the frames depend on the chunking by "
+                      "design (probe recorded in swap_family.dither_chunk_dependence_probe); what IS covered under dither "
+                      "(C06Swap + byte-order family): placement of every sample, host-order values in fe->spch, and "
+                      "bitwise equality of the byte-swapped run with the host-order run under the same seed",
+                      "byte order: covered for both values of input_endian (C06Swap; byte-order family runs the "
+                      "opposite-order front end on byte-reversed samples); the model/implementation correspondence runs "
+                      "and the width families themselves use input_endian = host order",
                       "fe_end is given room for at least one frame (acmod_end_utt with a full MFCC ring is C07's concern)",
                       "frame_size >= frame_shift >= 1 as enforced by fe_init; chunk lengths < 2^31 (int casts in fe_process): "
                       "C06_quantities_fit_c_types proves that below that bound every per-call quantity of the model fits a "
@@ -793,6 +802,7 @@ def check(c):
                 J.batch(pre + chunk, f"exhaustive {cid} ops {i}..{i + len(chunk)}")
                 i += step
             exhaustive += cnt
+    c06swap.swap_family(c, binp, vlib.Rng(c.seed * 7919 + 606), sizes, quick, dict(CONFIGS))  # records c.cov["swap_family"]
     c.oblige("correspondence: per-call (dry-run count, consumed, frames, num_overflow_samps) of the real fe_process_* / "
              "fe_end = model on every schedule", J.ok)
     c.oblige("oracle: cepstra of every schedule (int16 and float32 entry points) bitwise equal to the single-call "
@@ -819,6 +829,8 @@ def replay(c, path):
     c.lean_obligations()
     binp = harness(c)
     obj = json.loads(open(path).read())
+    if str(obj.get("kind", "")).startswith("swap-"):
+        return c06swap.replay_swap(c, binp, obj)
     ops = obj["ops"]
     J = Judge(c, binp)
     res = eval_case(binp, ops)
